@@ -1090,7 +1090,9 @@ func (ex *Exec) pureCall(env *Env, fn *ssa.Function, args []Val) Val {
 	st := env.st.clone()
 	st.pc = nil
 	top := &Frame{fn: ex.top, regs: map[ssa.Value]Val{}, depth: 1, label: "spec/"}
+	ex.pure++
 	rs := ex.callStatic(top, st, fn, args, nil, token.NoPos)
+	ex.pure--
 	ex.obs = ex.obs[:nObs]
 	if len(rs) != 1 {
 		// several results: a tuple (use res0(...), res1(...) to select)
